@@ -9,12 +9,13 @@ IsEvent(x) == i <= Len(Rec) /\ Rec[i].ev = x /\ i' = i + 1
 R == Rec[i]
 Reset   == IsEvent("Reset") /\ st' = Fresh
 Inj     == IsEvent("Inj") /\ InjOk(R.kind, R.s, R.e, R.init, R.rel, R.t, st) /\ st' = AfterInj(R.kind, R.s, R.e, R.init, R.rel, R.t, st)
-AppRx   == IsEvent("AppRx") /\ AppRxOk(R.x, R.s, R.ex, R.ts, R.tag, R.t, st) /\ UNCHANGED st
+AppRx   == IsEvent("AppRx") /\ AppRxOk(R.x, R.role, R.minit, R.s, R.ex, R.ts, R.tag, R.t, st) /\ UNCHANGED st
+DevInit == IsEvent("DevInit") /\ DevInitOk(R.s, R.e, st) /\ st' = AfterDevInit(R.s, R.e, st)
 Tx      == IsEvent("Tx") /\ TxOk(R.kind, R.s, R.e, R.secured, {R.gone[j] : j \in 1..Len(R.gone)}, R.t, st) /\ st' = AfterTx(R.kind, R.s, R.e, R.secured, {R.gone[j] : j \in 1..Len(R.gone)}, R.t, st)
 PSent   == IsEvent("ProbeSent") /\ ProbeSentOk(R.t, st) /\ st' = AfterProbeSent(R.t, st)
 PAns    == IsEvent("ProbeAnswered") /\ ProbeAnsweredOk(R.t, st) /\ st' = AfterProbeAnswered(R.t, st)
 End     == IsEvent("End") /\ EndOk(R.left, {R.gone[j] : j \in 1..Len(R.gone)}, st) /\ UNCHANGED st
-Next == Reset \/ Inj \/ AppRx \/ Tx \/ PSent \/ PAns \/ End
+Next == Reset \/ Inj \/ AppRx \/ DevInit \/ Tx \/ PSent \/ PAns \/ End
 Spec == Init /\ [][Next]_vars
 TraceAccepted ==
   LET d == TLCGet("stats").diameter IN
